@@ -311,6 +311,24 @@ def r5_walk(ctx):
         ctx.check(nh(via) and nh(ch), 'channel-of-next-hop', "the message is handed to the next hop's channel together with the next hop", s.where(), show(via)[:120])
 
 
+def r10_hop_channel(ctx):
+    """every hop is delayed by its own channel: the channel a message is handed to is the channel of the connection it is about to
+    traverse (`next.channel()`), and that very connection is what the channel gets as `via`"""
+    ctx.set_rule('C08.R10')
+    P = ctx.P
+    fs = [g for g in P.scope_of('des::net::runtime::events::MessageExitingConnection::handle_with_sink')]
+    sites = [(g, s) for g in fs for s in g.calls() if s.name == 'des::net::channel::Channel::send_message' and len(s.args) >= 3]
+    if not ctx.floor('channel hand-over in the gate walk', len(sites), 1):
+        return
+    for g, s in sites:
+        ch = g.expr_operand(s.args[0], s.b, 'T')
+        via = canon(strip_refs(peel(g.expr_operand(s.args[2], s.b, 'T'))))
+        src = [x for x in walk(ch) if x[0] == 'call' and x[1].endswith('Connection::channel') and x[2]]
+        ok = bool(src) and canon(strip_refs(peel(src[0][2][0]))) == via and any(x[0] == 'call' and x[1].endswith('Connection::next_hop') for x in walk(via))
+        ctx.check(ok, 'channel-of-the-hop-taken', 'the message is handed to the channel of the connection it traverses next, with that connection as `via`', s.where(),
+                  {'channel_from': show(ch)[:140], 'via': show(g.expr_operand(s.args[2], s.b, 'T'))[:100]})
+
+
 def r6_stamps(ctx):
     ctx.set_rule('C08.R6')
     f = ctx.anchor('des::net::runtime::ctx::buf_send_at')
@@ -417,6 +435,7 @@ def r8_whole_chain(ctx):
 
 
 def run(ctx):
+    r10_hop_channel(ctx)
     r8_whole_chain(ctx)
     # (R9) every hop delays by its channel and hands the message on: the idle path of Channel::send_message (busy period announced before
     # the exit event, exit at now + duration; shared with C07.R4)
